@@ -33,8 +33,18 @@ class CompDB:
         return thing
 
     def _stringify_arguments(self, arguments, directory=None):
-        stringified = (self._stringify(i, directory) for i in
-                       Command.convert_args(arguments, lambda i: i.command))
+        def stringify_all():
+            args = Command.convert_args(arguments, lambda i: i.command)
+            for n, i in enumerate(args):
+                s = self._stringify(i, directory)
+                # A program in the working directory is run as `./prog`, as in
+                # the build files; a bare name would be looked up in the PATH.
+                if ( n == 0 and os.path.sep not in s and
+                     isinstance(safe_str.safe_str(i), path.BasePath) ):
+                    s = os.path.join(os.path.curdir, s)
+                yield s
+
+        stringified = stringify_all()
         if isinstance(arguments, shell.shell_list):
             return shell.join(stringified)
         else:
